@@ -92,6 +92,9 @@ func (p *c07) Init(w *lib.Worker) (err error) {
 
 func (p *c07) Chunk(string) int { return 20 }
 
+// MaxStack: specification validation recurses a few dozen levels at most; a runaway recursion ends after 32 MB.
+func (p *c07) MaxStack() int { return 32 << 20 }
+
 // CaseTimeout: a case is two specification validations (well under 2 s even on a loaded machine); a case still
 // running after 60 s is re-run alone, and reported when it does not return there either (bounded progress).
 func (p *c07) CaseTimeout(string) int { return 60 }
@@ -150,7 +153,9 @@ func (p *c07) Run(w *lib.Worker, idx int, r *lib.Rand) lib.Case {
 // by call site and input class: a stack overflow, below the default / example validators, on a document whose
 // definitions hold a cycle through composition positions (compiling a validator for such a definition never ends).
 func (p *c07) KnownCrash(tier string, seed int64, idx int, stderr string) string {
-	if !strings.Contains(stderr, "stack overflow") {
+	// the runaway recursion ends in a stack overflow, or — on a loaded machine, where every level costs a getwd
+	// system call — is still running when the watchdog fires (its goroutine dump shows the same frames)
+	if !strings.Contains(stderr, "stack overflow") && !(strings.Contains(stderr, "WATCHDOG case=") && strings.Contains(stderr, "validate.newSchemaPropsValidator")) {
 		return ""
 	}
 	if !strings.Contains(stderr, "(*defaultValidator)") && !strings.Contains(stderr, "(*exampleValidator)") {
